@@ -286,8 +286,17 @@ class FunctorPool:
         return self
 
     def __exit__(self, exc_type=None, exc_val=None, exc_tb=None):
-        for _ in range(len(self.procs)):
-            self._work_queue.put(None)
+        # a worker that already finished (it reached its chunks limit and was not replaced) will never read its stop
+        # order, so the orders are sent just to living workers and the sending must not block forever on a bounded
+        # queue that nobody reads
+        for _ in range(sum(p.is_alive() for p in self.procs)):
+            while True:
+                try:
+                    self._work_queue.put(None, timeout=1)
+                    break
+                except queue.Full:
+                    if not any(p.is_alive() for p in self.procs):
+                        break
         for p in self.procs:
             if p.exitcode is None:
                 p.join(timeout=self.join_timeout)
